@@ -367,7 +367,7 @@ func gen(r *h.Rand, tier string, emit func([]string)) {
 	g := &gctx{r: r, emit: emit, tier: tier}
 	scale := 1
 	if tier == "thorough" {
-		scale = 30
+		scale = 12
 	}
 
 	// zigzag: boundaries and random
